@@ -461,6 +461,18 @@ def conclude(prop, tier, seed, merged, rule, wall_s, assumptions=(),
         "new_violation_keys": new_keys,
         "inconclusive_reasons": inconclusive,
     }
+    # per class tag (first field of a signature): the distinct values seen in
+    # every further field -- makes a class that a tier never reaches visible
+    fields = {}
+    for sig in merged["classes"]:
+        parts = sig.split("|")
+        slot = fields.setdefault(parts[0], [])
+        for i, v in enumerate(parts[1:]):
+            while len(slot) <= i:
+                slot.append(set())
+            if len(slot[i]) < 40:
+                slot[i].add(v)
+    coverage["class_field_values"] = {k: [sorted(x)[:40] for x in v] for k, v in sorted(fields.items())}
     if exhaustive is not None:
         coverage["exhaustive"] = bool(exhaustive)
     coverage.update(merged["extra"])
